@@ -19,7 +19,7 @@
  *   RESULT <id> status=<ok|deadlock|timeout|crash:N|overflow> events=<n> ndec=<n> decisions=<digits> wrong=<list> jobs=<n>
  *
  * usage: sched batch <file>      one run per line:  <id> key=value ...
- *        keys: jobs=<t0job+t0job/t1job...> sched=<digits|-> tail=<c|r|x> seed=<n> p=<0..255> warm=<0|1> relswitch=<0|1>
+ *        keys: jobs=<t0job+t0job/t1job...> sched=<[0-9cnm]*|-> tail=<c|r|x> seed=<n> p=<0..255> warm=<0|1> relswitch=<0|1>
  *              simd32=<0|1> simd64=<0|1>
  *        job:  Q:<recipe>:<phase>:<irate>:<orate>:<nsamples>   constant-rate one-shot, mono float32
  *              V:<ratio*1000>:<nsamples>                        variable-rate engine
@@ -208,9 +208,16 @@ static void handover(void)
   if (k == 1) pick = r[0];
   else {
     int idx;
-    if (explicit_sched[explicit_pos]) idx = (explicit_sched[explicit_pos++] - '0') % k;
+    int curpos = -1; for (t = 0; t < k; ++t) if (r[t] == current) curpos = t;
+    if (explicit_sched[explicit_pos]) {
+      /* digit: index among the runnable threads; c: continue with the current thread (no pre-emption); n / m: the next /
+       * next-but-one runnable thread after the current one (a pre-emption when the current thread could have continued) */
+      char ch = explicit_sched[explicit_pos++];
+      if (ch == 'c') idx = curpos >= 0 ? curpos : 0;
+      else if (ch == 'n' || ch == 'm') { idx = 0; for (t = 0; t < k; ++t) if (r[t] > current) { idx = t; break; } if (ch == 'm') idx = (idx + 1) % k; }
+      else idx = (ch - '0') % k;
+    }
     else {
-      int curpos = -1; for (t = 0; t < k; ++t) if (r[t] == current) curpos = t;
       if (opt_tail == 'c') idx = curpos >= 0 ? curpos : 0;
       else if (opt_tail == 'r') { idx = 0; for (t = 0; t < k; ++t) if (r[t] > current) { idx = t; break; } }
       else { if (curpos >= 0 && (int)(rnd() >> 20 & 255) >= opt_p) idx = curpos; else idx = (int)(rnd() >> 20) % k; }
